@@ -425,17 +425,25 @@ class Sym:
     def __rpow__(self, o):
         return _pow(o, self)
 
-    # -- comparisons
+    # -- comparisons (a symbolic value is a finite real: comparisons with +-inf are concrete)
     def __le__(self, o):
+        if isinstance(o, float) and math.isinf(o):
+            return o > 0
         return SymBool(T.b_le(self.p, lift(o).p))
 
     def __lt__(self, o):
+        if isinstance(o, float) and math.isinf(o):
+            return o > 0
         return SymBool(T.b_lt(self.p, lift(o).p))
 
     def __ge__(self, o):
+        if isinstance(o, float) and math.isinf(o):
+            return o < 0
         return SymBool(T.b_ge(self.p, lift(o).p))
 
     def __gt__(self, o):
+        if isinstance(o, float) and math.isinf(o):
+            return o < 0
         return SymBool(T.b_gt(self.p, lift(o).p))
 
     def __eq__(self, o):
